@@ -242,13 +242,10 @@ class Bus (objects.DBusObject):
             elif mt == 4:
                 self.signalReceived(p, msg)
 
-            if (
-                    msg.destination
-                    and not msg.destination == 'org.freedesktop.DBus'
-            ):
+            if not msg.destination == 'org.freedesktop.DBus':
+                # unicast to the owner of the destination name, or, without
+                # a destination, broadcast to the matching rules
                 self.sendMessage(msg)
-
-            self.router.routeMessage(msg)
         except DError as e:
             sig = None
             body = None
